@@ -105,7 +105,10 @@ def run_property(prop, tier, seed, mods, jobs=16, only='', rebaseline=False, t0=
         fe['paths'] += r['feasible_paths']
         if r['status'] == 'sampled':
             sm = r.get('sampled') or {}
-            fe['status'] = 'S'
+            fe['status'] = C.status if C.status in ('S', 'B') else 'S'
+            if sm.get('scope'):
+                fe['scope'] = sm['scope']
+                fe['exhaustive_within_scope'] = True
             fe['sampled_evaluations'] = fe.get('sampled_evaluations', 0) + sm.get('evaluations', 0)
             sampled_total[0] += sm.get('evaluations', 0)
             sampled_units[0] += 1
